@@ -152,6 +152,10 @@ fn c01_limits(rep: &mut Report) {
 	}
 }
 
+pub fn c01_value_pub(ops: &TypeOps, case: &Case, rep: &mut Report) {
+	c01_value(ops, case, rep)
+}
+
 pub fn c01(ctx: &Ctx) {
 	let mut rep = Report::new("C01");
 	let n = ctx.budget(1500, 60_000);
@@ -354,10 +358,57 @@ pub fn c03_bytes(ops: &TypeOps, b: &[u8], origin: &str, rep: &mut Report) -> boo
 			}
 		},
 	}
+	// the shared-buffer entry point must be just as total (always for types holding `Bytes`,
+	// sampled otherwise)
+	if ops.has_tag("bytes") || (b.len() + rep.evaluations as usize) % 8 == 0 {
+		rep.count("shared_buffer_decodes");
+		match catch(|| (d.bytes)(b.to_vec())) {
+			Err(p) => fail(rep, "decode-panic:decode_from_bytes", format!("decode_from_bytes panicked: {p}")),
+			Ok(r) => {
+				let accepted = r.is_some();
+				if accepted != model.is_ok() {
+					fail(rep, "decode-language:decode_from_bytes", format!("decode_from_bytes {} but the specification {}", if accepted { "accepts" } else { "rejects" }, if model.is_ok() { "accepts" } else { "rejects" }));
+				}
+			},
+		}
+	}
 	if rep.want_sample() && b.len() >= 2 {
 		rep.sample(sample_json(ops, origin, b, &format!("model: {}", match &model { Ok(_) => "accept".to_string(), Err(e) => class_name(*e).to_string() })));
 	}
 	true
+}
+
+/// Bit sequences at the 2^29 limit with all the data really present (64 MiB): the count alone
+/// must decide.
+fn c03_bit_limit(ctx: &Ctx, rep: &mut Report) {
+	for name in ["BitVec<u8, Lsb0>", "BitVec<u64, Msb0>", "BitBox<u32, Lsb0>"] {
+		let Some(ops) = ctx.universe.iter().find(|o| o.name == name) else { continue };
+		for (count, expect_ok) in [((1u128 << 29) - 1, true), (1u128 << 29, false), ((1u128 << 29) + 64, false)] {
+			let mut b = Vec::with_capacity((1 << 26) + 32);
+			compact_encode(count, &mut b);
+			let head = b.len();
+			b.resize(head + (1 << 26) + 16, 0);
+			rep.evaluations += 1;
+			rep.count("bit_limit_cases");
+			rep.nontrivial(key(ops, &b[..head]) ^ count as u64);
+			match catch(|| {
+				let mut s = &b[..];
+				let r = (ops.d().keep)(&mut s);
+				(r.is_some(), b.len() - s.len())
+			}) {
+				Ok((ok, used)) => {
+					if ok != expect_ok {
+						rep.violation(
+							&format!("decode-accepts-invalid:too-many-bits:{}", ops.name),
+							format!("{}: a bit sequence claiming {count} bits with 64 MiB of data present: decode {} (consumed {used}), but sequences longer than 2^29-1 bits must be rejected and shorter ones accepted", ops.name, if ok { "succeeded" } else { "failed" }),
+							replay_json("C03", ops, &b[..head], &[("claimed_bits", count.to_string()), ("payload", jstr("64 MiB of zero bytes"))]),
+						);
+					}
+				},
+				Err(p) => rep.violation(&format!("decode-panic:{}", ops.name), format!("{}: decode of a {count}-bit sequence panicked: {p}", ops.name), replay_json("C03", ops, &b[..head], &[])),
+			}
+		}
+	}
 }
 
 const EXHAUSTIVE_TYPES: &[&str] = &[
@@ -501,5 +552,8 @@ pub fn c03(ctx: &Ctx) {
 	}
 	// (e) exhaustive short strings
 	c03_exhaustive(ctx, &mut rep);
+	if ctx.shard == 0 && !ctx.is_slow() {
+		c03_bit_limit(ctx, &mut rep);
+	}
 	finish(ctx, &rep);
 }
